@@ -53,7 +53,7 @@ def _rerun(ctx0):
         evs = [json.loads(line) for line in open(scenario)]
         names = ["typical", "rangefirst", "filefirst", "filebeforesid", "nolease", "nostatic", "staticinside", "leaseafter"]
         c = names.index(evs[0].get("name", "typical"))
-        letters = [{"C": e["c"], "Mt": e["mt"], "Sid": e["sid"]} for e in evs if e["ev"] == "cmsg"]
+        letters = [{"C": e["c"], "Mt": e["mt"], "Sid": e["sid"], "Want": e.get("want", "none")} for e in evs if e["ev"] == "cmsg"]
         wd = ctx.scratch.sub("conv-rerun")
         jf = os.path.join(wd, "one.json")
         json.dump([letters], open(jf, "w"))
